@@ -116,6 +116,11 @@ def check(ctx):
                 elif cname.startswith('resource_'):
                     run.check('package' not in kinds, 'R19a', where(repo, call), m.qualname, call,
                               'a resource-level counter is written into the package descriptor')
+                    # a resource is written once by a dumper: its own figures are SET.  Adding them to whatever the incoming
+                    # descriptor already records (a package that was dumped before and loaded again) doubles them
+                    run.check(call.func.attr == 'set_attr', 'R19a', where(repo, call), m.qualname, 'absolute ' + u(call),
+                              'a per-resource counter is incremented on top of the value the incoming descriptor may already '
+                              'carry: load(<dumped package>) followed by a dump records twice the bytes / rows of the file')
                 else:
                     run.fail('R19a', where(repo, call), m.qualname, call, 'counter name is not one of the six configured attributes')
                 # value role
